@@ -1,7 +1,7 @@
 // Package instr rewrites the source of one library package so that a cooperative scheduler (engine
 // sched) owns every interleaving of goroutines running inside it: a call verifPoint(site) is put in
 // front of EVERY statement of every function body and function literal, and sync.Mutex / sync.RWMutex
-// / sync.Once are replaced by shims whose blocking is visible to the scheduler. The rewritten files
+// / sync.Once / sync.Pool are replaced by shims whose blocking (or reuse) is owned by the scheduler. The rewritten files
 // and one added hook file are handed to `go build -overlay`, so the instrumented package is always
 // made from the source the build would have used (the working tree of /repo, or what VERIF_OVERLAY
 // maps it to) and nothing in /repo is touched.
@@ -148,6 +148,9 @@ func Package(pkgDir string, resolve func(string) string, extra []string, outDir 
 						res.SyncShims++
 					case "Once":
 						edits = append(edits, edit{off(x.Pos()), off(x.End()), "verifOnce"})
+						res.SyncShims++
+					case "Pool":
+						edits = append(edits, edit{off(x.Pos()), off(x.End()), "verifPool"})
 						res.SyncShims++
 					case "Cond", "NewCond", "WaitGroup":
 						res.Unsupported = append(res.Unsupported, fmt.Sprintf("%s:%d sync.%s", filepath.Base(path), fset.Position(x.Pos()).Line, x.Sel.Name))
@@ -298,6 +301,52 @@ func (m *verifRWMutex) RLocker() interface {
 	Unlock()
 } {
 	return (*verifRLocker)(m)
+}
+
+// verifPool stands in for sync.Pool: never blocks, hands back the most recently Put object (the reuse a
+// pool exists for, made certain instead of likely), is emptied before every controlled execution
+// (VerifResetPools) so that executions do not depend on their predecessors, and is never emptied by the
+// garbage collector in the middle of one.
+type verifPool struct {
+	New        func() any
+	items      []any
+	registered bool
+}
+
+var verifPools []*verifPool
+
+func (p *verifPool) register() {
+	if !p.registered {
+		p.registered = true
+		verifPools = append(verifPools, p)
+	}
+}
+
+func (p *verifPool) Get() any {
+	p.register()
+	if n := len(p.items); n > 0 {
+		x := p.items[n-1]
+		p.items = p.items[:n-1]
+		return x
+	}
+	if p.New != nil {
+		return p.New()
+	}
+	return nil
+}
+
+func (p *verifPool) Put(x any) {
+	p.register()
+	if x != nil {
+		p.items = append(p.items, x)
+	}
+}
+
+// VerifResetPools empties every pool that has been used so far.
+func VerifResetPools() {
+	for _, p := range verifPools {
+		p.items = nil
+	}
 }
 
 type verifOnce struct{ done, running bool }
